@@ -156,7 +156,26 @@ func MapKeys(m interface{}, site string) []interface{} {
 	return out
 }
 
+// SyncRange replaces m.Range(f) on a sync.Map in the rewritten code: the entries are
+// visited in the order chosen for this occurrence (default: ascending keys), and the
+// iteration stops when f returns false, as Range does.
+func SyncRange(m *sync.Map, site string, f func(key, value interface{}) bool) {
+	tmp := map[interface{}]interface{}{}
+	m.Range(func(k, v interface{}) bool {
+		tmp[k] = v
+		return true
+	})
+	for _, k := range MapKeys(tmp, site) {
+		if !f(k, tmp[k]) {
+			return
+		}
+	}
+}
+
 func sortKey(v reflect.Value) string {
+	if v.Kind() == reflect.Interface && !v.IsNil() {
+		return sortKey(v.Elem())
+	}
 	switch v.Kind() {
 	case reflect.String:
 		return "s" + v.String()
